@@ -646,13 +646,30 @@ func (w *c05Walker) refOrMarker(v reflect.Value, consume bool) (stop bool) {
 	case "ref":
 		id := string(e.Data)
 		m, known := w.marked[id]
+		// a marker seen at a pointer may belong to the pointer or (when only the pointee is shared) to what it
+		// points to: follow the marked value down its pointers and interfaces
+		var hit reflect.Value
+		for steps := 0; known && steps < 8; steps++ {
+			if m.Type() == v.Type() && (m.Kind() == reflect.Ptr || m.Kind() == reflect.Map || m.Kind() == reflect.Slice) && m.Pointer() == v.Pointer() {
+				hit = m
+				break
+			}
+			if (m.Kind() == reflect.Ptr || m.Kind() == reflect.Interface) && !m.IsNil() {
+				m = m.Elem()
+				continue
+			}
+			break
+		}
 		switch {
 		case !known:
 			w.problem("reference", "reference to unknown marker "+id)
-		case m.Type() != v.Type() || m.Pointer() != v.Pointer():
+		case !hit.IsValid():
+			if v.Kind() == reflect.Ptr {
+				return false // the reference stands for something this pointer leads to
+			}
 			w.problem("reference", "reference "+id+" stands for a different object")
-		case v.Kind() == reflect.Slice && m.Len() != v.Len():
-			w.problem("slice-same-base-different-length", fmt.Sprintf("slice of length %d emitted as a reference to the slice of length %d starting at the same address", v.Len(), m.Len()))
+		case v.Kind() == reflect.Slice && hit.Len() != v.Len():
+			w.problem("slice-same-base-different-length", fmt.Sprintf("slice of length %d emitted as a reference to the slice of length %d starting at the same address", v.Len(), hit.Len()))
 		}
 		w.pos++
 		return true
@@ -983,7 +1000,12 @@ func (w *c05Walker) structVal(v reflect.Value, consume bool, recName string, isR
 	kept := 0
 	for _, f := range fields {
 		fv := c05FieldByPath(v, f.Path)
-		if !w.kc.keeps(f, fv) {
+		if isRecord && c05RecordKeepsAll() {
+			// the implementation carries every declared field in a record, whatever the omit rules say of this value
+			if !w.kc.keeps(f, reflect.ValueOf(1)) {
+				continue
+			}
+		} else if !w.kc.keeps(f, fv) {
 			continue
 		}
 		kept++
@@ -1042,6 +1064,27 @@ func (w *c05Walker) cfgTerm() string {
 		recs[i] = cApp("mkRT", cBytes([]byte(w.kc.RecNames[i])), cNi(w.sid(t)), w.protoTerm(t))
 	}
 	return cApp("mkCfg", cBool(w.kc.Snake), cBool(w.kc.Recursion), c05Omit(w.kc.Omit), cList(recs))
+}
+
+var c05RecordProbe = 0
+
+// does a record carry a value for every key its record type declares, even for an empty field?
+func c05RecordKeepsAll() bool {
+	if c05RecordProbe == 0 {
+		rec := &Recorder{}
+		cfg := configuration.New()
+		cfg.Iterator.RecordTypes[reflect.TypeOf(c05RecA{})] = "r"
+		func() {
+			defer func() { recover() }()
+			iterator.NewSession(nil, cfg).NewIterator(rec).Iterate(c05RecA{A: 1})
+		}()
+		c05RecordProbe = 1
+		// bd v rt a b c e rec 1 [""] [null|empty array] e ed
+		if len(rec.Evs) == 13 {
+			c05RecordProbe = 2
+		}
+	}
+	return c05RecordProbe == 2
 }
 
 var c05EdgeProbe = 0
@@ -1312,7 +1355,7 @@ func (g *c05Gen) fill(v reflect.Value, depth int) {
 		if g.rng.Intn(5) == 0 {
 			return
 		}
-		if p := g.pool[t]; len(p) > 0 && g.rng.Intn(3) == 0 {
+		if p := g.pool[t]; len(p) > 0 && (g.rng.Intn(3) == 0 || (g.cycles && g.rng.Intn(2) == 0)) {
 			v.Set(p[g.rng.Intn(len(p))])
 			return
 		}
@@ -2101,7 +2144,15 @@ func c05Record(c *Ctx, cf *caseFile, label string, root interface{}, kc *c05Cfg,
 	if root != nil {
 		shape = reflect.TypeOf(root).Kind().String()
 	}
+	// trivial: a document that is only nil, a bool or an integer
 	nontrivial := len(r.Evs) > 4
+	if len(r.Evs) == 4 {
+		switch r.Evs[2].K {
+		case "null", "b", "i", "pi":
+		default:
+			nontrivial = true
+		}
+	}
 	c.Count(label+"|"+kc.String()+"|"+evsString(r.Evs), nontrivial)
 	c.Dist("root/" + shape)
 	c.Dist(fmt.Sprintf("cfg/recursion=%v/records=%v", kc.Recursion, len(kc.RecTypes) > 0))
@@ -2185,7 +2236,7 @@ func c05Random(sub int64, defect bool) (root interface{}, kc *c05Cfg) {
 }
 
 func runC05(c *Ctx) {
-	c.Rep.Rule = "random values of random types (reflect.StructOf structs with ce tags, slices, arrays, maps, pointers with sharing, interfaces, typed arrays, bool slices, library types, Node, Edge), depth <= 3, each with a random iterator configuration (field-name style, default omit behaviour, record types chosen among the struct types of the value, recursion support 1/3 with cycles); one third of the random cases may contain shapes of the recorded defect classes (edges, bool slices longer than 8, records with omitted fields, signalling float32 NaNs); plus a zoo of hand-written values (bool slices of every length around byte boundaries, edges, records, embedded structs, omit tags on every kind, shared pointers, cycles, slices sharing a base) under 2-5 configurations each; a case is non-trivial when the document has more than begin/version/value/end; distinct = distinct (label, configuration, event stream)"
+	c.Rep.Rule = "random values of random types (reflect.StructOf structs with ce tags, slices, arrays, maps, pointers with sharing, interfaces, typed arrays, bool slices, library types, Node, Edge), depth <= 3, each with a random iterator configuration (field-name style, default omit behaviour, record types chosen among the struct types of the value, recursion support 1/3 with cycles); one third of the random cases may contain shapes of the recorded defect classes (edges, bool slices longer than 8, records with omitted fields, signalling float32 NaNs); plus a zoo of hand-written values (bool slices of every length around byte boundaries, edges, records, embedded structs, omit tags on every kind, shared pointers, cycles, slices sharing a base) under 2-5 configurations each; a case is trivial when the document is only nil, a bool or an integer; distinct = distinct (label, configuration, event stream)"
 	cf := c.Cases("iterate", "CE.Model.Iterate", "iterate_case", "iterate_case_ok")
 	cf.perFile = 100
 
